@@ -15,12 +15,6 @@ def cfg(args, **kw):
     c.update(kw)
     return c
 
-case("F-C", "C09", "self-check-valid",
-     "package src\n\ntype Store[K comparable, V any] interface {\n\tGet(k K) (V, bool)\n}\n", cfg(["Store"]),
-     note="var _ Store[comparable, any] = &StoreMock[comparable, any]{} is not valid Go")
-case("F-C-mixed", "C09", "self-check-valid",
-     "package src\n\ntype Num interface {\n\t~int\n\tString() string\n}\n\ntype Store[K Num] interface {\n\tGet(k K) bool\n}\n", cfg(["Store"]),
-     note="self-check instantiates with int, which has no String method")
 case("F-N", "C16", "goimports-same-imports",
      "package src\n\nimport \"example.com/w/deps/zzz\"\n\ntype Doer interface {\n\tDo(v yaml.Node) error\n}\n", cfg(["Doer"], invoke="foreignabs"),
      extra={"deps/zzz/zzz.go": "package yaml\n\ntype Node struct{ A int }\n"},
